@@ -200,7 +200,9 @@ pub enum Step {
     /// `clones` handle clones with at most `max_outstanding` unacknowledged, executed and
     /// checked online (identifier uniqueness among outstanding operations). A pure function of
     /// its parameters; the history is compacted as it goes so that 10^5 operations fit.
-    IdHistory { seed: u64, ops: u32, clones: usize, max_outstanding: usize },
+    /// `pin`: the first operation of the history is never acknowledged (it stays outstanding
+    /// while tens of thousands of identifiers are allocated: the property's proviso boundary).
+    IdHistory { seed: u64, ops: u32, clones: usize, max_outstanding: usize, #[serde(default)] pin: bool },
 }
 
 impl Step {
